@@ -568,6 +568,7 @@ func pow10(e uint8) uint64 {
 // A EnumType represents a mapping of strings to integers.  It is used both
 // for enumerations as well as bitfields.
 type EnumType struct {
+	assigned bool             // whether any value has been assigned
 	last     int64            // maximum value assigned thus far
 	min      int64            // minimum value allowed
 	max      int64            // maximum value allowed
@@ -621,15 +622,19 @@ func (e *EnumType) Set(name string, value int64) error {
 	}
 	e.ToString[value] = name
 	e.ToInt[name] = value
-	if value >= e.last {
+	if !e.assigned || value >= e.last {
 		e.last = value
 	}
+	e.assigned = true
 	return nil
 }
 
 // SetNext sets the name in e using the next possible value that is greater than
 // all previous values.
 func (e *EnumType) SetNext(name string) error {
+	if !e.assigned {
+		return e.Set(name, 0)
+	}
 	if e.last == MaxEnum {
 		return fmt.Errorf("enum %q must specify a value since previous enum is the maximum value allowed", name)
 	}
